@@ -91,7 +91,10 @@ static void run_case(const Bytes &b, en::CaseOut &o, bool canon = true, int fu1 
     Loaded L;
     bool ok = load(L, b, o, presel);
     check_heap(b.size(), o, "load");
-    if(!ok || o.bad) return;
+    if(o.bad) return;
+    // A rejected load is followed by the same calls: "loading plus any subsequent playback, seeking, song
+    // switching and metadata queries" must stay memory-safe whether or not the loader accepted the bytes.
+    (void)ok;
     uint64_t tags = 0;
     if(fu1 >= 0) { followup(L.I.dev, fu1, tags); if(fu2 >= 0) followup(L.I.dev, fu2, tags); }
     else if(canon) for(int f : CANON) followup(L.I.dev, f, tags);
@@ -204,6 +207,19 @@ int main(int argc, char **argv) {
         Bytes b = seed_by_name(f.seed); set_field(b, f, f.width == 4 ? BND32[v1] : BND16[v1]); set_field(b, g, g.width == 4 ? BND32[v2] : BND16[v2]); run_case(b, o); };
       fams.push_back(F);
     }
+    { std::vector<size_t> f4; for(size_t x = 0; x < g_fields.size(); x++) if(g_fields[x].width == 4) f4.push_back(x);
+      en::Family F; F.name = "fields_wraparound"; F.count = (uint64_t)f4.size() * 81; F.chunk = 8; F.budget_s = 60; F.describe = "every 32-bit length/offset field (" + std::to_string(f4.size()) + " fields) x {2^32-k : k=1..64} u {2^31+j : j=-8..8}: values whose aligned/added form wraps around or turns negative as a signed skip";
+      F.run = [f4](uint64_t i, en::CaseOut &o) { const FieldRef &f = g_fields[f4[(size_t)(i % f4.size())]]; unsigned vi = (unsigned)(i / f4.size()); uint32_t v = vi < 64 ? (uint32_t)(0u - (vi + 1)) : (uint32_t)(0x80000000u + (uint32_t)((int)vi - 64 - 8));
+        Bytes b = seed_by_name(f.seed); set_field(b, f, v); char t[64]; snprintf(t, sizeof t, " = 0x%08X", v); if(i % 97 == 0) o.sample = f.name + t; run_case(b, o); };
+      fams.push_back(F); }
+    { en::Family F; F.name = "reload_over_playing"; F.count = (uint64_t)g_seeds.size() * g_seeds.size() * 3 * 2; F.chunk = 4; F.budget_s = 60; F.describe = "second load over a song that is already loaded and has played: every ordered pair of seeds (10 x 10) x second input {as is, cut at 60 %, cut inside the last event} x {first song at start, first song played 0.5 s}; canonical follow-ups after the second load whether it was accepted or rejected";
+      F.run = [](uint64_t i, en::CaseOut &o) { size_t n = g_seeds.size(); size_t a = (size_t)(i % n), b2 = (size_t)((i / n) % n); unsigned cut = (unsigned)((i / n / n) % 3), played = (unsigned)(i / n / n / 3);
+        Loaded L; if(!load(L, g_seeds[a].second, o)) { o.nontrivial = false; } OPN2_MIDIPlayer *d = L.I.dev; static short buf[44100]; if(played) opn2_play(d, 44100, buf);
+        Bytes b = g_seeds[b2].second; if(cut == 1) b.resize(b.size() * 6 / 10); else if(cut == 2 && b.size() > 2) b.resize(b.size() - 2);
+        if(i % 37 == 0) o.sample = g_seeds[a].first + (played ? " played, then " : ", then ") + g_seeds[b2].first + (cut == 1 ? " cut at 60 %" : cut == 2 ? " minus 2 bytes" : "");
+        int rc = opn2_openData(d, b.data(), (unsigned long)b.size()); if(rc != 0 && rc != -1) o.fail("C01/undefined-return", "second opn2_openData returned " + std::to_string(rc));
+        uint64_t tags = 0; for(int f : CANON) followup(d, f, tags); o.tags |= tags; };
+      fams.push_back(F); }
     { en::Family F; F.name = "followups_depth2"; F.count = (uint64_t)g_seeds.size() * FU_COUNT * FU_COUNT * 4; F.chunk = 16; F.budget_s = 60; F.describe = "every ordered pair of follow-up calls (19 x 19) on every freshly loaded seed, with song pre-selection {none, -1, 1, 99} before loading";
       F.run = [](uint64_t i, en::CaseOut &o) { size_t s = (size_t)(i % g_seeds.size()); int f1 = (int)((i / g_seeds.size()) % FU_COUNT), f2 = (int)((i / g_seeds.size() / FU_COUNT) % FU_COUNT); int ps = (int)(i / g_seeds.size() / FU_COUNT / FU_COUNT);
         static const int PS[] = {-2, -1, 1, 99}; if(i % 1201 == 0) o.sample = g_seeds[s].first + ": preselect " + std::to_string(PS[ps]) + "; " + FU_NAME[f1] + "; " + FU_NAME[f2];
